@@ -53,7 +53,7 @@ RULE = (
     "Hypothesis draws n in [6,24] rows (level of one categorical feature with 2..5 levels, group out of "
     "2..3, binary label; every group occurs by construction, a third of the datasets concentrate each "
     "group on a preferred level/label so disparities are large), one of the five parity moments with "
-    "default / difference / ratio(+slack) bound, eps in {0.01..0.2}, max_iter in {1,2,5,10,30}, explicit "
+    "default / difference / ratio(+slack) bound, eps in {0.0002..0.2} (B = 1/eps from 5 to 5000), max_iter in {1,2,5,10,30}, explicit "
     "nu in {1e-6,1e-3,0.05}, eta0 in {0.5,2,8}, run_linprog_step, containers for X / y / sensitive "
     "features. A case is non-trivial when the constraints bind (every error-minimising table of H is "
     "infeasible: certified lower bound of the constrained optimum > unconstrained minimum error) and at "
@@ -240,13 +240,15 @@ def check(case):
         tags.append("missing_pair")
     if len(P.group_values) == 3:
         tags.append("groups3")
+    if case["eps"] < 1e-3:
+        tags.append("B>1000")
     return tags
 
 
 @st.composite
 def _cases(draw):
     case = draw(R.reduction_data(min_groups=2, max_groups=3, pairs="free"))
-    case["eps"] = draw(st.sampled_from([0.01, 0.02, 0.05, 0.1, 0.2]))
+    case["eps"] = draw(st.sampled_from([0.01, 0.02, 0.05, 0.1, 0.2, 0.001, 0.0005, 0.0002]))
     case["max_iter"] = draw(st.sampled_from([1, 2, 5, 5, 10, 10, 30, 30]))
     case["nu"] = draw(st.sampled_from([1e-6, 1e-3, 0.05, 0.0]))
     case["eta0"] = draw(st.sampled_from([0.5, 2.0, 8.0]))
